@@ -89,7 +89,21 @@ TilingCovers ==
 \* C07-keyword-lost-in-context): KA "a", KAB "ab", KB "b", RAS /a+/, text "ab", context {KA, KAB, KB}: the full lexer types "a"
 \* through RAS as KA, then KB; the restricted one has no RAS, so KA is not embedded there and KAB (wider) takes "ab".
 RegexpsDisjoint == \A r, s \in All : (r # s /\ ~T[r].isstr /\ ~T[s].isstr) => lang[r] \cap lang[s] = {}
+\* ... and from three terminals on (with RDOT) also KA "a", KAI "a"i, RDOT /./ on "a" with context {KA, KAI}: the full lexer
+\* lost KA to RDOT and says KAI, the restricted one has no regexp and says KA (the embedded-order deviation again).
+\* The statement that HOLDS: contextual refines basic unless one of the two recorded deviations is in play -
+\*  no embedded-order deviation of the full lexer on this text, and no string of the context is a keyword (unless list) of a
+\*  regexp that is outside the context: the full lexer reaches such a keyword through the regexp, under the regexp's width, the
+\*  restricted one lets it compete under its own.
+NoKnownDeviation(ctx) ==
+  /\ \A p \in 0..(Len(text) - 1) : ~EmbeddedDeviation(T, MT, SMx, Ord, All, p)
+  /\ ~\E s \in ctx, r \in All \ ctx : ~T[r].isstr /\ s \in Unless(T, SMx, r)      \* a keyword of the context whose regexp is outside it
 RestrictionRefines ==
+  LET ctx == among \cup {i \in All : T[i].ign} IN
+  (RegexpsDisjoint /\ NoKnownDeviation(ctx) /\ L1[2] = -1 /\ \A k \in DOMAIN L1[1] : L1[1][k][1] \in ctx) =>
+      Lex1(T, MT, SMx, Ord, ctx, 0, Len(text), <<>>) = L1
+\* EXPECTED TO FAIL (model sensitivity): the property's proviso alone
+RestrictionRefinesByProvisoAlone ==
   LET ctx == among \cup {i \in All : T[i].ign} IN
   (RegexpsDisjoint /\ L1[2] = -1 /\ \A k \in DOMAIN L1[1] : L1[1][k][1] \in ctx) =>
       Lex1(T, MT, SMx, Ord, ctx, 0, Len(text), <<>>) = L1
